@@ -244,13 +244,15 @@ Definition spec_counts (g : gdesc) : list (string * Z) :=
     ("NginxProxyCount", if g_has_np g then 1%Z else 0%Z);
     ("SnippetsFilterCount", Z.of_nat (length (g_sfs g))) ].
 
-(* ---- flags: a reported value is a reduction of the flag's value to true/false/default/user-defined *)
+(* ---- flags: a reported value is a reduction of the flag's value to true/false/default/user-defined: a boolean flag
+        is reported as it is; any other flag as "default" only if its value is the default, else "user-defined"
+        (the weaker reading: "user-defined" for a flag the user set explicitly to its default value is not excluded) *)
 
 Definition mem_str (x : string) (l : list string) : bool := existsb (String.eqb x) l.
 
 Definition reduced (f : flagd) (v : string) : bool :=
   if f_bool f then (v =? f_value f) && mem_str v ["true"; "false"]
-  else ((v =? "default") && (f_value f =? f_def f)) || ((v =? "user-defined") && negb (f_value f =? f_def f)).
+  else ((v =? "default") && (f_value f =? f_def f)) || (v =? "user-defined").
 
 (* ---- SnippetsFilters: a reported string is <directive name>-<context> for a directive name of a snippet of that
         context in a SnippetsFilter of the graph *)
